@@ -13,7 +13,8 @@ One worker process owns one root directory under /var/tmp:
 A *case description* (JSON) says what the deterministic command does:
 
     {'out': [tok, ...], 'err': [tok, ...],          lines on stdout / stderr
-     'files': [{'name': 'o.txt', 'kind': 'text', 'sub': 0|1, 'lines': [tok]}],
+     'files': [{'kind': 'text', 'sub': 0|1|2, 'lines': [tok]}],  place: working
+                                   directory, sub/, gentest's $TMPDIR
      'spec': 'none' | 'dir' | 'explicit' | 'glob',  how outputs are named
      'status': 0 | 3, 'iters': 1|2|3,
      'no_stdout': 0|1, 'no_stderr': 0|1, 'nonzero': 0|1,
@@ -377,14 +378,17 @@ class Harness(object):
         for i, f in enumerate(case.get('files') or []):
             name, content = FILE_KINDS[f['kind']]
             name = f.get('name') or name
-            rel = os.path.join('sub', name) if f.get('sub') else name
+            place = f.get('sub') or 0          # 0 cwd, 1 sub/, 2 $TMPDIR
+            rel = (name, os.path.join('sub', name),
+                   os.path.join('..', 'gtmp', name))[place]
+            target = '"$TMPDIR/%s"' % name if place == 2 else rel
             if content is None:
                 content = self.text(f.get('lines') or ['plain'])
             dname = 'd_f%d.dat' % i
             b.data[dname] = content
             b.files.append((rel, dname, f['kind']))
             sh.append('if [ -f %s ]; then cat %s > %s; fi' % (dname, dname,
-                                                              rel))
+                                                              target))
         sh.append('read s < d_status.dat')
         sh.append('exit $s')
         if not os.path.isdir(os.path.join(b.cwd, 'sub')):
@@ -421,14 +425,18 @@ class Harness(object):
         elif spec == 'dir':
             b.file_args = ['.']
         elif spec == 'explicit':
-            b.file_args = list(rels)
+            b.file_args = [os.path.normpath(os.path.join(b.cwd, r))
+                           if r.startswith('..') else r for r in rels]
         elif spec == 'absolute':
-            b.file_args = [os.path.join(b.cwd, r) for r in rels]
+            b.file_args = [os.path.normpath(os.path.join(b.cwd, r))
+                           for r in rels]
         elif spec == 'glob':
-            b.file_args = sorted(set(os.path.join(os.path.dirname(r), 'o.*')
+            def gdir(r):
+                d = os.path.dirname(r)
+                return self.gtmp if d.startswith('..') else d
+            b.file_args = sorted(set(os.path.join(gdir(r), 'o.*')
                                      if '.' in os.path.basename(r)
-                                     else os.path.join(os.path.dirname(r),
-                                                       'o*')
+                                     else os.path.join(gdir(r), 'o*')
                                      for r in rels))
         else:
             raise ValueError(spec)
